@@ -519,6 +519,31 @@ def run_case(case, rec):
                               None if oku else dict(ctx, path=nm_, note="weights not normalised, cutoff %g between weight products" % cut2,
                                                     observed=val_, formula=exp2, retained_weight=ref2["W"]))
                 rec.bucket("mesh:unnormalised-weights-with-cutoff")
+        if (shape == "pd1" and sum(1 for n_ in lengths if n_ > 1) == 1 and all(n_ >= 1 for n_ in lengths)
+                and not (defn.get("oriented") and dim == "2d")):
+            # a tabulated distribution whose weights are exact binary fractions, and a cutoff equal to one of them:
+            # the mean is over the points whose weight exceeds the cutoff (a point on the cutoff is left out), for both
+            # execution paths
+            from sasmodels import details as sasdetails
+            jx = int(np.argmax(lengths)) + 2
+            mesh3 = [list(m_) for m_ in mesh]
+            mesh3[jx][2] = np.array([[0.5, 0.25, 0.125][(j_ + c) % 3] for j_ in range(lengths[jx - 2])])
+            mesh3 = [tuple(m_) for m_ in mesh3]
+            cut3 = [0.25, 0.125][(c // 8) % 2]
+            ref3 = formula(defn, cinfo, mesh3, q, dim, cut3, mode)
+            exp3 = pars["scale"]*ref3["F2"]/(ref3["shell"] if ref3["W"] and ref3["shell"] else 1.0) + pars["background"]
+            sc3 = float(np.max(np.abs(exp3 - pars["background"]))) + 1e-300
+            for nm_, kern_ in (("c", kc), ("python", kp)):
+                if kern_ is None:
+                    continue
+                cd_, vals_, mag_ = sasdetails.make_kernel_args(kern_, mesh3)
+                val_ = np.asarray(kern_.Iq(cd_, vals_, cut3, mag_), float)
+                okb = core.close(val_, exp3, 1e-10, 1e-12*sc3)
+                rec.check("both_equal_formula", okb,
+                          None if okb else dict(ctx, path=nm_, note="binary-fraction weights %s, cutoff %g equal to one of them"
+                                                % (list(mesh3[jx][2]), cut3), observed=val_, formula=exp3,
+                                                retained_weight=ref3["W"]), key="C09/weight-equal-to-cutoff")
+            rec.bucket("mesh:weight-equal-to-cutoff")
         rec.set_shape((d, shape, dim, lengths, mode, cutoff),
                       nontrivial=(max(lengths + [0]) >= 2 or shape in ("trunc1", "trunc0", "mono_invalid")))
         if c == 0 and d < 3:
@@ -526,6 +551,8 @@ def run_case(case, rec):
         kc.release()
     if pmodel is not None and d % 3 == 1:
         _run_wrapper(rec, rng, defn, name, dirpath, cpath, ppath, case)
+    if d % 4 == 2:
+        _run_scalar(rec, rng, name, dirpath, case)
     # one ill-formed variant of this definition must be rejected at load or build
     kind = sorted(ILL)[d % len(ILL)]
     if defn["oriented"]:
@@ -558,6 +585,65 @@ def _mono_pars(rng, info):
         else:
             pars[p.name] = float(rng.uniform(max(lo, 0.1), min(hi, 3.0)))
     return pars
+
+
+def _run_scalar(rec, rng, name, dirpath, case):
+    """A definition whose Python rendering is written point by point (scalar q, not flagged as vectorised) with constant
+    branches that return whole numbers, beside the same text in C: both executions and the formula agree wherever the
+    first q of the request falls."""
+    from sasmodels import core as sascore, direct_model
+    qb, qh = float(rng.uniform(0.004, 0.008)), float(rng.uniform(0.15, 0.2))
+    lo_c, hi_c = int(rng.integers(1, 4)), int(rng.integers(0, 2))
+    head = ('name = %r\ntitle = "generated"\ndescription = "generated"\ncategory = "shape:sphere"\n'
+            'parameters = [["sld", "1e-6/Ang^2", 1.5, [-50, 50], "sld", ""], ["radius", "Ang", 20.0, [0, 1e3], "volume", ""]]\n')
+    c = (head % (name + "_sc") +
+         'Iq = """\n    if (q < %r) return %d;\n    if (q > %r) return %d;\n'
+         '    return sld*sld*radius*radius*radius*exp(-q*q*radius*radius/3.0);\n"""\n'
+         'form_volume = """\n    return radius*radius*radius;\n"""\n' % (qb, lo_c, qh, hi_c))
+    py = (head % (name + "_sp") + "from math import exp, sqrt\n"
+          "def Iq(q, sld, radius):\n    if q < %r:\n        return %d\n    if q > %r:\n        return %d\n"
+          "    return sld*sld*radius*radius*radius*exp(-q*q*radius*radius/3.0)\n"
+          "def Iqxy(qx, qy, sld, radius):\n    return Iq(sqrt(qx*qx + qy*qy), sld, radius)\n"
+          "def form_volume(radius):\n    return radius*radius*radius\n" % (qb, lo_c, qh, hi_c))
+    cpath, ppath = os.path.join(dirpath, name + "_sc.py"), os.path.join(dirpath, name + "_sp.py")
+    for path, text in ((cpath, c), (ppath, py)):
+        with open(path, "w") as f:
+            f.write(text)
+    try:
+        cinfo, pinfo = sascore.load_model_info(cpath), sascore.load_model_info(ppath)
+        cmodel, pmodel = sascore.build_model(cinfo, platform="dll"), sascore.build_model(pinfo, platform="dll")
+    except Exception as exc:
+        rec.check("well_formed_definition_builds", False, {"definition": py, "exception": repr(exc)[:1500]})
+        return
+    mid = np.exp(rng.uniform(math.log(0.01), math.log(0.1), 3))
+    for first in ("low-branch", "high-branch", "formula-branch"):
+        q1 = np.concatenate([{"low-branch": [0.5*qb], "high-branch": [1.2*qh], "formula-branch": []}[first], mid,
+                             [0.7*qb, 1.1*qh]])
+        for dim in ("1d", "2d"):
+            q = [q1] if dim == "1d" else [q1*np.cos(0.4), q1*np.sin(0.4)]
+            for disp in (False, True):
+                pars = {"scale": float(rng.uniform(0.5, 2)), "background": float(rng.uniform(0, 0.5)),
+                        "sld": float(rng.uniform(1, 4)), "radius": float(rng.uniform(10, 30))}
+                if disp:
+                    pars.update(radius_pd=0.2, radius_pd_n=5, radius_pd_nsigma=2.0)
+                kc, kp = cmodel.make_kernel(q), pmodel.make_kernel(q)
+                Ic = np.asarray(direct_model.call_kernel(kc, dict(pars)), float)
+                Ip = np.asarray(direct_model.call_kernel(kp, dict(pars)), float)
+                _, rv, rw = direct_model.get_mesh(cinfo, pars, dim=dim)[3]
+                qq = np.hypot(q[0], q[1]) if dim == "2d" else q1
+                f2 = np.zeros(len(qq))
+                for r_, w_ in zip(rv, rw):
+                    f2 += w_*np.where(qq < qb, lo_c, np.where(qq > qh, hi_c,
+                                                                pars["sld"]**2*r_**3*np.exp(-qq*qq*r_*r_/3.0)))
+                exp = pars["scale"]*f2/np.sum(rw*np.asarray(rv)**3) + pars["background"]
+                ctx = {"definition": py, "first_q": first, "dim": dim, "pars": pars, "q": q1}
+                sc = float(np.max(np.abs(exp)))
+                rec.check("python_equals_c", core.close(Ip, Ic, 1e-9, 1e-12*sc), dict(ctx, python=Ip, c=Ic),
+                          key="C09/scalar-python-rendering")
+                rec.check("both_equal_formula", core.close(Ip, exp, 1e-9, 1e-12*sc) and core.close(Ic, exp, 1e-9, 1e-12*sc),
+                          dict(ctx, python=Ip, c=Ic, formula=exp), key="C09/scalar-python-rendering")
+                rec.bucket("python:scalar-definition", "scalar:first-q-in-" + first)
+                kc.release()
 
 
 def _run_wrapper(rec, rng, defn, name, dirpath, cpath, ppath, case):
